@@ -7,6 +7,7 @@ import (
 	"fmt"
 	"sort"
 	"sync"
+	"sync/atomic"
 
 	flyt "github.com/mark3labs/flyt"
 
@@ -33,6 +34,9 @@ type FnCase struct {
 }
 
 var errFn = errors.New("exec-produced error state")
+
+// errFnCtx: the same error state, but the error also wraps a context error (a sub-operation's own timeout) while the run's context is alive
+var errFnCtx = fmt.Errorf("%w: sub-operation: %w", errFn, context.DeadlineExceeded)
 
 type fnObs struct {
 	execCalls int
@@ -94,6 +98,9 @@ func runFnCase(cs *FnCase) (fs []finding) {
 			return flyt.Result{}, errors.New("exec fails; the fallback supplies the result")
 		}
 		if cs.ErrRes {
+			if (cs.P+cs.E)%3 == 1 {
+				return flyt.NewErrorResult(errFnCtx), nil // still an error RESULT handed back with a nil error: a value, not a failed attempt
+			}
 			return flyt.NewErrorResult(errFn), nil
 		}
 		return flyt.NewResult(e), nil
@@ -440,6 +447,13 @@ func runC17(c *Cfg) {
 	}
 	// sequential batches that end early (stop mode after a failure; cancellation inside an item): what was executed
 	// before keeps exactly the outcome exec returned, nil values included
+	for _, n := range []int{6, 20, 70} { // error Results among the items prep returns
+		for _, cc := range []int{0, 1, 3} {
+			for v := 0; v < 4; v++ {
+				lb = append(lb, &BigBatchCase{Family: "batch-per-item-outcomes", N: n, C: cc, ExecR: v&1 != 0, Builder: v&2 != 0, FailEvery: 11, FailAs: "error", ErrItemEvery: 5})
+			}
+		}
+	}
 	for _, n := range []int{4, 9, 40} {
 		for v := 0; v < 4; v++ {
 			lb = append(lb, &BigBatchCase{Family: "batch-per-item-outcomes", N: n, C: 0, ExecR: v&1 != 0, Builder: v&2 != 0, FailEvery: 7, FailAs: "error", Stop: true, NilEvery: 2})
@@ -583,6 +597,7 @@ type BigBatchCase struct {
 	Big       bool   `json:"big"`
 	Stop      bool   `json:"stop,omitempty"`      // stop-on-error mode (sequential cases only: what was executed before the failure keeps its outcome)
 	NilEvery  int    `json:"nil_every,omitempty"` // > 0: items i with i%NilEvery == 1 succeed with a nil value
+	ErrItemEvery int `json:"err_item_every,omitempty"` // > 0: items i with i%ErrItemEvery == 4 arrive from prep as error Results: still items — exec is called for them and its outcome is their result
 	CancelAt  int    `json:"cancel_at,omitempty"` // > 0: the context is cancelled inside the exec of this item (sequential cases only)
 }
 
@@ -601,19 +616,28 @@ func runBigBatchCase(cs *BigBatchCase) (fs []finding) {
 			fs = append(fs, finding{"panic:batch-large", fmt.Sprint(pn)})
 		}
 	}()
-	fails := func(i int) bool { return cs.FailEvery > 0 && i%cs.FailEvery == 3 }
+	errItem := func(i int) bool { return cs.ErrItemEvery > 0 && i%cs.ErrItemEvery == 4 }
+	fails := func(i int) bool { return cs.FailEvery > 0 && i%cs.FailEvery == 3 && !errItem(i) }
 	outs := make([]*int, cs.N) // what exec returned for item i (a fresh pointer per item)
-	nilOut := func(i int) bool { return cs.NilEvery > 0 && i%cs.NilEvery == 1 && !fails(i) }
+	nilOut := func(i int) bool { return cs.NilEvery > 0 && i%cs.NilEvery == 1 && !fails(i) && !errItem(i) }
 	ctx, cancel := context.WithCancel(context.Background())
 	defer cancel()
 	prepB := func(ctx context.Context, s *flyt.SharedStore) ([]flyt.Result, error) {
 		rs := make([]flyt.Result, cs.N)
 		for i := range rs {
 			rs[i] = flyt.NewResult(i)
+			if errItem(i) {
+				rs[i] = flyt.NewErrorResult(&bigErr{-i - 1}) // carries its index in the error
+			}
 		}
 		return rs, nil
 	}
+	var errItemCalls atomic.Int64
 	execAny := func(ctx context.Context, v any) (any, error) {
+		if v == nil { // an error-Result item as the Any style sees it
+			errItemCalls.Add(1)
+			return "handled-error-item", nil
+		}
 		i := v.(int)
 		if cs.CancelAt > 0 && i == cs.CancelAt {
 			cancel()
@@ -630,6 +654,10 @@ func runBigBatchCase(cs *BigBatchCase) (fs []finding) {
 		return p, nil
 	}
 	execRes := func(ctx context.Context, it flyt.Result) (flyt.Result, error) {
+		if it.IsError() {
+			errItemCalls.Add(1)
+			return flyt.NewResult("handled-error-item"), nil
+		}
 		i := it.Value().(int)
 		if fails(i) {
 			if cs.FailAs == "error-result" {
@@ -698,6 +726,12 @@ func runBigBatchCase(cs *BigBatchCase) (fs []finding) {
 	for i, sl := range slots {
 		if i >= limit {
 			break
+		}
+		if errItem(i) {
+			if sl.IsError() || sl.Value() != any("handled-error-item") {
+				add("batch-error-item-not-executed", "item %d of %d arrived from prep as an error Result (concurrency %d): post received for it %s (IsError=%v), exec would have returned \"handled-error-item\" — exec was called %d times for such items", i, cs.N, cs.C, zoo.Describe(sl.Value()), sl.IsError(), errItemCalls.Load())
+			}
+			continue
 		}
 		if nilOut(i) {
 			if sl.IsError() || sl.Value() != nil {
